@@ -61,6 +61,26 @@ CHECKS = {
         "Failure flags and filter weights are read from the results (C03-C05 decide them); tolerance 1e-6*(1+max|slope|); sigma<1e-6 skipped.",
         "DESIGN.md §3 C02",
     ),
+    "C03": (
+        "fault_enumeration",
+        "exhaustive enumeration of failure subsets x thresholds + Hypothesis; flag/gate predicates, differential run on the reduced ensemble, exact affine gradient, real SLSQP runs",
+        "Every subset of the R + R*P evaluations of one function+gradient request fails (NaN in an objective, the first or the second constraint column), "
+        "exhaustively for R,P<=2 (quick) / R,P<=3 (thorough) x all realization_min_success x all perturbation_min_success x mean/stddev x "
+        "none/sort/cvar filter x combined/split path, sampled for R<=6, P<=8 with zero weights: failed flags and the min-success gates are predicted "
+        "exactly, values are compared with the same code run on the reduced ensemble and gradients additionally with the exact affine gradient; for "
+        "R*P<=4 a real SLSQP run per fault set checks TOO_FEW_REALIZATIONS and that nothing is requested afterwards.",
+        "Affine ensemble + injected full-rank design; with filters, gradients are compared only if no realization fails through perturbations alone.",
+        "DESIGN.md §3 C03",
+    ),
+    "C10": (
+        "exploration",
+        "Hypothesis with injected design sampler; closed-form reference model of magnitude and boundary post-processing",
+        "Random bounds (finite, half-infinite, infinite), points inside them, per-variable magnitudes, ABSOLUTE/RELATIVE and NONE/TRUNCATE/MIRROR per "
+        "variable, injected samples from tiny steps to overshoots of thousands of bound widths, with and without VariableScaler; the vectors received by "
+        "the evaluator and the reported perturbed_variables are compared entry by entry with x + m*s post-processed by the documented rule.",
+        "4 ulp tolerance (1e-12 relative with a scaler); multiply-reflected MIRROR values only need to be inside the bounds.",
+        "DESIGN.md §3 C10",
+    ),
 }
 
 NOT_YET = "check not built yet in this session (planned, see DESIGN.md §3)"
